@@ -13,6 +13,9 @@ C06.block  every zone-file writer opens and closes groups symmetrically: `(`
 C06.entry  convert_entry reads a token only after establishing that the entry
            has not ended (so an empty last field - `\\# 0`, an empty key -
            reads back as empty data instead of an error).
+C06.sib    an enum that has both a Display and a zone-file writer writes
+           something for a variant in both or in neither (the Display form is
+           what the reader's `scan` was written against).
 C06.label  the in-place reader accepts labels of up to exactly 63 octets (cap
            = start + 65 for the write cursor), like Label's own limit.
 """
@@ -38,6 +41,7 @@ def run(ctx):
     rule_label(ctx, F)
     rule_block(ctx, F)
     rule_entry(ctx, F)
+    rule_sib(ctx, F)
 
 
 # ---------------------------------------------------------------------------
@@ -514,3 +518,56 @@ def rule_entry(ctx, F):
                "convert_entry converts a token without first checking that the entry has not ended (no dominating "
                "is_line_feed() == false): an entry whose last field is empty (`\\# 0`, an empty key or digest) fails "
                "with 'unexpected end of entry' instead of yielding empty data", b.where(bb))
+
+
+# ---------------------------------------------------------------------------
+# Display and the zone-file writer agree, variant by variant, on whether
+# anything is written
+# ---------------------------------------------------------------------------
+
+_WRITES = re.compile(r"::(write_fmt|write_str|write_char|write_token|write_show|write_comment|fmt|block|pad|display)$")
+
+
+def _variant_writes(b, F):
+    out = {}
+    bf = BranchFacts(b, F)
+    for sw in sorted(b.reachable_blocks()):
+        t = b.blocks[sw]["t"]
+        if t["k"] != "switch":
+            continue
+        for lab, (tt, vv) in bf.edge_facts(sw).items():
+            if isinstance(vv, tuple) and vv[0] == "variant" and strip(tt)[0] == "arg":
+                tgt = b.edge_target(sw, lab)
+                r = b.reach_from(tgt)
+                out[vv[1]] = any(b.blocks[x]["t"]["k"] == "call" and _WRITES.search(b.blocks[x]["t"]["fn"] or "") for x in r)
+    return out
+
+
+def rule_sib(ctx, F):
+    R = "C06.sib"
+    ctx.floor(R, 3)
+    by = {}
+    for im in F.impls:
+        adt = im["self_adt"]
+        if not adt or not adt.startswith(("rdata::", "base::")) or adt not in F.adts or len(F.adts[adt]["variants"]) < 2:
+            continue
+        if im["trait"] in ("core::fmt::Display", "base::zonefile_fmt::ZonefileFmt"):
+            for it in im["items"]:
+                if it["name"] == "fmt":
+                    by.setdefault(adt, {})[im["trait"].split("::")[-1]] = F.bodies.get(it["path"])
+    n = 0
+    for adt, d in sorted(by.items()):
+        if len(d) != 2 or not all(d.values()):
+            continue
+        a, z = _variant_writes(d["Display"], F), _variant_writes(d["ZonefileFmt"], F)
+        if not a or not z:
+            ctx.undecided_item(R, adt, "variant arms not recognised in Display / ZonefileFmt")
+            continue
+        n += 1
+        diff = sorted(v for v in set(a) | set(z) if a.get(v) != z.get(v))
+        ctx.ob(R, d["ZonefileFmt"], "Display and ZonefileFmt write for the same variants", not diff,
+               "%s: variant(s) %s are written by %s but produce no token in %s: the zone-file text lacks a field the reader "
+               "expects (or has one too many) and the record does not read back"
+               % (adt.split("::")[-1], diff, "Display" if diff and a.get(diff[0]) else "ZonefileFmt",
+                  "ZonefileFmt" if diff and a.get(diff[0]) else "Display"))
+    ctx.anchor(R, "enums with both Display and ZonefileFmt", n >= 3)
